@@ -177,7 +177,43 @@ def keys(ctx, branches):
                         pass
     ctx.ob("R20.1", "_write_node.subxml[keys written elsewhere are not copied]", {"transform", "fill", "stroke", "attributes", "tag"} <= excl, str(sorted(excl)), sub[0].lineno,
            "transform and paint are recomputed by the writer; copying the parsed strings as well would apply them twice or contradict them")
+    # subxml copies every other source attribute first.  A geometry key that a branch writes only `if node.F:` keeps the copied
+    # source text when F has become 0 (reify moved the shape to the origin): the element is written with its old position.
+    stale = []
+    for cls in GEOM:
+        tag, em, line = seen[cls]
+        body = [b for c_, b, _ in branches if c_ == cls][0]
+        for k, guard, val, ln in em:
+            if k in GEOM[cls] and guard is not None and guard[0] == "truthy" and k not in excl:
+                g = [x for x in stmts_in(body) if isinstance(x, ast.If) and ast.unparse(x.test) == guard[1]]
+                removed = any(isinstance(c, ast.Call) and isinstance(c.func, ast.Attribute) and c.func.attr in ("pop",) and c.args and (_const(ctx, c.args[0]) == k)
+                              for x in g for st in x.orelse for c in ast.walk(st)) or any(isinstance(st, ast.Delete) for x in g for st in x.orelse)
+                if not removed:
+                    stale.append("%s.%s" % (cls, k))
+    ctx.ob("R20.2", "_write_node[copied source attribute survives a zero value]", not stale, ", ".join(stale), sub[0].lineno,
+           "<rect x=\"10\" transform=\"translate(-10,0)\"/> parsed with reify has x = 0; the writer copies x=\"10\" from the source attributes and `if node.x:` never overwrites it")
+    # a Circle that reify scaled differently on the two axes has rx != ry; writing r from rx alone loses ry
+    tag, em, line = seen["Circle"]
+    cbody = [b for c_, b, _ in branches if c_ == "Circle"][0]
+    mentions_ry = any(isinstance(n, ast.Attribute) and n.attr == "ry" and isinstance(n.value, ast.Name) and n.value.id == "node" for st in cbody for n in ast.walk(st))
+    rf = ctx.m.func("_RoundShape.reify")
+    facs = {}
+    for st in stmts_in(rf.body):
+        if isinstance(st, ast.Assign) and attr_chain(st.targets[0]) in (["self", "rx"], ["self", "ry"]):
+            facs[attr_chain(st.targets[0])[1]] = {n.id for n in ast.walk(st.value) if isinstance(n, ast.Name)} - {"self"}
+    independent = "rx" in facs and "ry" in facs and facs["rx"] != facs["ry"]
+    own = "reify" in ctx.m.classes["Circle"].methods
+    ctx.ob("R20.1", "_write_node[Circle: r written although rx and ry may differ]", mentions_ry or not independent or own,
+           "reify scales rx by %s and ry by %s; the Circle branch reads node.ry: %s" % (sorted(facs.get("rx", [])), sorted(facs.get("ry", [])), mentions_ry), line,
+           "Circle(r=10, transform='scale(2,1)').reify() has rx = 20, ry = 10; it is written as <circle r=\"20\"> and read back as a circle of radius 20")
     return seen
+
+
+def _const(ctx, node):
+    try:
+        return ctx.m.const(node)
+    except NotConst:
+        return None
 
 
 def viewport(ctx, fn, branches):
